@@ -351,53 +351,7 @@ pub fn run(a: &Args) -> i32 {
             }
         }
     }
-    // ---- the path-based entry point (`generate_module_token_stream`, what the derive and the CLI call), several files in ONE
-    // process: every call must give exactly what the string-based entry point gives for the texts of THAT query file and
-    // THAT schema file - also for files whose names differ only in bytes that are not UTF-8, and for one query file used
-    // with two schema files
-    #[cfg(unix)]
-    {
-        use std::os::unix::ffi::OsStringExt;
-        let dir = ctx.work.join(format!("c05_paths_{}", std::process::id()));
-        let _ = std::fs::create_dir_all(&dir);
-        let schema_v1 = "type Item { id: ID! name: String price: Float }\ntype Query { items: [Item!]! echo: Int }\n";
-        let schema_v2 = "type Extra { sku: Int! }\ntype Item { id: ID! sku: Int! name: String }\ntype Query { extra: Extra items: [Item!]! echo: Int }\n";
-        let s1 = dir.join("schema_v1.graphql");
-        let s2 = dir.join("schema_v2.graphql");
-        let _ = std::fs::write(&s1, schema_v1);
-        let _ = std::fs::write(&s2, schema_v2);
-        let name = |bytes: &[u8]| dir.join(std::ffi::OsString::from_vec(bytes.to_vec()));
-        let files: Vec<(std::path::PathBuf, String)> = vec![
-            (name(b"q\xFF.graphql"), "# first file\nquery Alpha { echo }\n".to_string()),
-            (name(b"q\xFE.graphql"), "# second file\nquery Beta { items { id } }\n".to_string()),
-            (name(b"plain.graphql"), "query Inventory { items { id name } }\n".to_string()),
-        ];
-        let mut calls: Vec<(usize, &std::path::PathBuf)> = Vec::new();
-        for (i, (p, text)) in files.iter().enumerate() {
-            if std::fs::write(p, text).is_ok() {
-                calls.push((i, &s1));
-            }
-        }
-        // the same query files again, in reverse, then the last one against the second schema and back
-        let again: Vec<(usize, &std::path::PathBuf)> = calls.iter().rev().cloned().collect();
-        calls.extend(again);
-        calls.push((2, &s2));
-        calls.push((2, &s1));
-        for (i, schema_path) in calls {
-            let (qpath, text) = &files[i];
-            let by_path = std::panic::catch_unwind(std::panic::AssertUnwindSafe(|| graphql_client_codegen::generate_module_token_stream(qpath.clone(), schema_path, Opts::harness().to_real()).map(|t| t.to_string()).map_err(|e| e.to_string())));
-            let by_text = std::panic::catch_unwind(std::panic::AssertUnwindSafe(|| graphql_client_codegen::generate_module_token_stream_from_string(text, schema_path, Opts::harness().to_real()).map(|t| t.to_string()).map_err(|e| e.to_string())));
-            rep.case(Some(&format!("paths|{}|{}", i, schema_path.display())));
-            rep.count("path-based-call");
-            match (by_path, by_text) {
-                (Ok(a), Ok(b)) if a == b => rep.traces_validated += 1,
-                (Ok(a), Ok(b)) => rep.fail("path-based-generation-uses-another-file", json!({"query_file": qpath.to_string_lossy(), "schema_file": schema_path.to_string_lossy(), "query": text,
-                    "by_path": a.map(|t| t.chars().take(600).collect::<String>()), "by_text": b.map(|t| t.chars().take(600).collect::<String>())})),
-                _ => rep.fail("path-based-generation-uses-another-file", json!({"query_file": qpath.to_string_lossy(), "what": "one of the two entry points panicked"})),
-            }
-        }
-        let _ = std::fs::remove_dir_all(&dir);
-    }
+    super::wire::path_entry_sequence(&mut rep, &ctx);
     // the derive must make cargo watch the QUERY FILE (QUERY stays the verbatim document only if an edit of the
     // file triggers a rebuild): the file has to appear in the dep-info of the compiled crate
     if let Some(dep) = &build.dep_info {
